@@ -9,7 +9,8 @@ package server
 // under an address-space limit; a panic outside gin's recovery (create decodes in its own goroutine) or a fatal
 // out-of-memory kills the process, the driver sees which case did it.
 //
-// case:  {"bytes": hex, "name": "m1", "fname": "model.gguf"}
+// case:  {"bytes": hex, "name": "m1", "fname": "model.gguf"}   optional: "adapter": hex + "aname" (the `adapters` field), "from": model,
+//        "extra": {template, system, license, parameters, messages, ...} merged into the create request; without "bytes" no `files`
 // reply: {"blob": status, "create": status, "create_err": "...", "show": status, "show_verbose": status,
 //         "from": status, "alive": status}
 
@@ -83,29 +84,60 @@ func TestVerifC10API(t *testing.T) {
 			w.Flush()
 			continue
 		}
-		data, err := hex.DecodeString(c["bytes"].(string))
-		if err != nil {
-			enc.Encode(map[string]any{"harness_error": "bad hex"})
-			w.Flush()
-			continue
-		}
 		name, _ := c["name"].(string)
-		fname, _ := c["fname"].(string)
-		sum := sha256.Sum256(data)
-		digest := "sha256:" + hex.EncodeToString(sum[:])
 		out := map[string]any{}
-		out["blob"], _ = c10post(client, srv.URL+"/api/blobs/"+digest, data)
+		upload := func(field string) (string, bool) {
+			hs, ok := c[field].(string)
+			if !ok {
+				return "", false
+			}
+			data, err := hex.DecodeString(hs)
+			if err != nil {
+				return "", false
+			}
+			sum := sha256.Sum256(data)
+			digest := "sha256:" + hex.EncodeToString(sum[:])
+			st, _ := c10post(client, srv.URL+"/api/blobs/"+digest, data)
+			if field == "bytes" || st != http.StatusCreated && st != http.StatusOK {
+				out["blob"] = st
+			}
+			return digest, true
+		}
 		stream := false
-		st, body := c10post(client, srv.URL+"/api/create", map[string]any{"model": name, "files": map[string]string{fname: digest}, "stream": &stream})
+		body := map[string]any{"model": name, "stream": &stream}
+		if digest, ok := upload("bytes"); ok {
+			fname, _ := c["fname"].(string)
+			body["files"] = map[string]string{fname: digest}
+		}
+		if digest, ok := upload("adapter"); ok {
+			aname, _ := c["aname"].(string)
+			body["adapters"] = map[string]string{aname: digest}
+		}
+		if from, ok := c["from"].(string); ok && from != "" {
+			body["from"] = from
+		}
+		if extra, ok := c["extra"].(map[string]any); ok {
+			for k, v := range extra {
+				body[k] = v
+			}
+		}
+		st, rbody := c10post(client, srv.URL+"/api/create", body)
 		out["create"] = st
 		if st != http.StatusOK {
-			out["create_err"] = body
+			out["create_err"] = rbody
 		}
 		out["show"], _ = c10post(client, srv.URL+"/api/show", map[string]any{"model": name})
 		out["show_verbose"], _ = c10post(client, srv.URL+"/api/show", map[string]any{"model": name, "verbose": true})
 		if st == http.StatusOK {
 			out["from"], _ = c10post(client, srv.URL+"/api/create", map[string]any{"model": name + "b", "from": name, "stream": &stream})
 			out["show_from"], _ = c10post(client, srv.URL+"/api/show", map[string]any{"model": name + "b", "verbose": true})
+			if c["list"] == true {
+				if resp, err := client.Get(srv.URL + "/api/tags"); err == nil {
+					b, _ := io.ReadAll(io.LimitReader(resp.Body, 1<<20))
+					resp.Body.Close()
+					out["listed"] = bytes.Contains(b, []byte("\""+name+":latest\""))
+				}
+			}
 		}
 		resp, err := client.Get(srv.URL + "/api/version")
 		if err != nil {
